@@ -28,6 +28,8 @@ type c19Pkg struct {
 	Path       string     `json:"path"`
 	Config     CfgMap     `json:"config,omitempty"`
 	Interfaces []c19Iface `json:"interfaces,omitempty"`
+	// a package (or interface) without settings may be written `name:` (YAML null) instead of `name: {}`
+	Null bool `json:"null,omitempty"`
 }
 
 type c19Input struct {
@@ -173,6 +175,7 @@ func (c19) Generate(c *Ctx) []any {
 				}
 				pk.Interfaces = append(pk.Interfaces, ic)
 			}
+			pk.Null = r.Intn(2) == 0
 			in.Packages = append(in.Packages, pk)
 		}
 		if i%5 == 4 {
@@ -211,6 +214,10 @@ func c19YAML(in *c19Input) ([]byte, error) {
 				im[i.Name] = m
 			}
 			pm["interfaces"] = im
+		}
+		if len(pm) == 0 && p.Null {
+			pk[p.Path] = nil
+			continue
 		}
 		pk[p.Path] = pm
 	}
